@@ -59,6 +59,10 @@ func runChunks(c *rp.Ctx, cs chunkCase, wire []byte, seg string) error {
 			want.Scs, want.Ctl = b.Scs, b.Ctl
 		}
 		if err := sameChunked(want, m, c.Seed); err != nil {
+			if ts := int64(m.Timestamp); ts != e.Ts && ts&0x7fffffff == e.Ts {
+				return &notReduced{fmt.Errorf("message %d of %d (id %d): timestamp %d (0x%x) is not reduced to 31 bits, specification: %d (0x%x)",
+					k+1, len(cs.Expect), e.ID, ts, ts, e.Ts, e.Ts)}
+			}
 			return fmt.Errorf("message %d of %d (id %d): %v", k+1, len(cs.Expect), e.ID, err)
 		}
 		keptWant, keptGot = append(keptWant, want), append(keptGot, m)
@@ -91,6 +95,10 @@ func runChunks(c *rp.Ctx, cs chunkCase, wire []byte, seg string) error {
 	}
 	return nil
 }
+
+// notReduced: the delivered timestamp equals the specification's only modulo 2^31 (named deviation
+// timestamp-reduced-only-after-extended of MC_RtmpChunk.tla, or any other missing reduction).
+type notReduced struct{ error }
 
 // sameChunked compares a delivered message; control bodies come from the specification's CtlBody.
 func sameChunked(want rtmpx.Msg, got *rtmp.Message, seed int) error {
@@ -143,7 +151,11 @@ func init() {
 		cc.Seed = 0
 		for _, seg := range segs {
 			if err := runChunks(&cc, cs, wire, seg); err != nil {
-				return rp.Result{OK: false, What: fmt.Sprintf("[segmentation %s, %d chunks, %d bytes] %v", seg, cs.Nchunks, len(wire), err)}
+				r := rp.Result{OK: false, What: fmt.Sprintf("[segmentation %s, %d chunks, %d bytes] %v", seg, cs.Nchunks, len(wire), err)}
+				if _, ok := err.(*notReduced); ok {
+					r.Deviation = "C02/timestamp-not-reduced-to-31-bits"
+				}
+				return r
 			}
 		}
 		return rp.Result{OK: true}
